@@ -24,6 +24,26 @@ class RegexStackOverflow(Exception):
     pass
 
 
+class _StepLimitReached(Exception):
+    """Internal: the step budget of one match attempt is used up."""
+
+
+def _is_line_terminator(ch: str) -> bool:
+    return ch == "\n"
+
+
+def _is_digit(ch: str) -> bool:
+    return ch.isdigit()
+
+
+def _is_word_char(ch: str) -> bool:
+    return ch.isalnum() or ch == "_"
+
+
+def _is_space(ch: str) -> bool:
+    return ch.isspace()
+
+
 class MatchResult:
     """Result of a successful regex match."""
 
@@ -133,274 +153,159 @@ class RegexVM:
         """
         Execute bytecode against string.
 
-        This is the main execution loop.
+        One attempt at one start position. The step budget is shared with the
+        lookaround sub-matches of this attempt.
         """
-        # Execution state
-        pc = 0  # Program counter
-        sp = start_pos  # String position
-        step_count = 0
-
-        # Capture positions: list of (start, end) for each group
-        # -1 means unset
+        self._steps = 0
         captures = [[-1, -1] for _ in range(self.capture_count)]
+        try:
+            return self._run(string, 0, start_pos, captures, None, -1)
+        except _StepLimitReached:
+            return None  # Fail gracefully on ReDoS
 
-        # Registers for position tracking (ReDoS protection)
+    def _tick(self, stack: List[Tuple]) -> None:
+        """Per-step bookkeeping: poll the timeout callback, enforce the budgets."""
+        self._steps += 1
+        if self._steps % self.poll_interval == 0:
+            if self.poll_callback and self.poll_callback():
+                raise RegexTimeoutError("Regex execution timed out")
+
+        # Hard step limit for ReDoS protection
+        if self._steps > self.step_limit:
+            raise _StepLimitReached()
+
+        # Stack overflow protection
+        if len(stack) > self.stack_limit:
+            raise RegexStackOverflow("Regex stack overflow")
+
+    def _run(
+        self,
+        string: str,
+        pc: int,
+        sp: int,
+        captures: List[List[int]],
+        lookaround: Optional[str],
+        must_end_at: int,
+    ):
+        """
+        The execution loop, shared by the main match and by lookarounds.
+
+        lookaround is None for the main match (returns a MatchResult or None),
+        "ahead" for the body of a lookahead and "behind" for the body of a
+        lookbehind (both return the captures on success, None on failure; a
+        lookbehind body must end exactly at must_end_at).
+        """
+        length = len(string)
         registers: List[int] = []
 
         # Backtrack stack: list of (pc, sp, captures_snapshot, registers_snapshot)
         stack: List[Tuple] = []
 
         while True:
-            # Check limits periodically
-            step_count += 1
-            if step_count % self.poll_interval == 0:
-                if self.poll_callback and self.poll_callback():
-                    raise RegexTimeoutError("Regex execution timed out")
+            self._tick(stack)
+            failed = False
 
-            # Hard step limit for ReDoS protection
-            if step_count > self.step_limit:
-                return None  # Fail gracefully on ReDoS
-
-            # Stack overflow protection
-            if len(stack) > self.stack_limit:
-                raise RegexStackOverflow("Regex stack overflow")
-
-            # Fetch instruction
             if pc >= len(self.bytecode):
                 # Fell off end - no match
-                if not stack:
-                    return None
-                pc, sp, captures, registers = self._backtrack(stack)
-                continue
+                failed = True
+                opcode = None
+            else:
+                instr = self.bytecode[pc]
+                opcode = instr[0]
 
-            instr = self.bytecode[pc]
-            opcode = instr[0]
+            if failed:
+                pass
 
-            # Execute instruction
-            if opcode == Op.CHAR:
-                char_code = instr[1]
-                if sp >= len(string):
-                    if not stack:
-                        return None
-                    pc, sp, captures, registers = self._backtrack(stack)
-                    continue
-
-                ch = string[sp]
-                if self.ignorecase:
-                    match = ord(ch.lower()) == char_code or ord(ch.upper()) == char_code
-                else:
-                    match = ord(ch) == char_code
-
-                if match:
+            elif opcode == Op.CHAR:
+                if sp < length and self._char_matches(string[sp], instr[1]):
                     sp += 1
                     pc += 1
                 else:
-                    if not stack:
-                        return None
-                    pc, sp, captures, registers = self._backtrack(stack)
+                    failed = True
 
             elif opcode == Op.DOT:
-                if sp >= len(string) or string[sp] == "\n":
-                    if not stack:
-                        return None
-                    pc, sp, captures, registers = self._backtrack(stack)
-                    continue
-                sp += 1
-                pc += 1
+                if sp < length and not _is_line_terminator(string[sp]):
+                    sp += 1
+                    pc += 1
+                else:
+                    failed = True
 
             elif opcode == Op.ANY:
-                if sp >= len(string):
-                    if not stack:
-                        return None
-                    pc, sp, captures, registers = self._backtrack(stack)
-                    continue
-                sp += 1
-                pc += 1
-
-            elif opcode == Op.DIGIT:
-                if sp >= len(string) or not string[sp].isdigit():
-                    if not stack:
-                        return None
-                    pc, sp, captures, registers = self._backtrack(stack)
-                    continue
-                sp += 1
-                pc += 1
-
-            elif opcode == Op.NOT_DIGIT:
-                if sp >= len(string) or string[sp].isdigit():
-                    if not stack:
-                        return None
-                    pc, sp, captures, registers = self._backtrack(stack)
-                    continue
-                sp += 1
-                pc += 1
-
-            elif opcode == Op.WORD:
-                if sp >= len(string) or not (string[sp].isalnum() or string[sp] == "_"):
-                    if not stack:
-                        return None
-                    pc, sp, captures, registers = self._backtrack(stack)
-                    continue
-                sp += 1
-                pc += 1
-
-            elif opcode == Op.NOT_WORD:
-                if sp >= len(string) or (string[sp].isalnum() or string[sp] == "_"):
-                    if not stack:
-                        return None
-                    pc, sp, captures, registers = self._backtrack(stack)
-                    continue
-                sp += 1
-                pc += 1
-
-            elif opcode == Op.SPACE:
-                if sp >= len(string) or not string[sp].isspace():
-                    if not stack:
-                        return None
-                    pc, sp, captures, registers = self._backtrack(stack)
-                    continue
-                sp += 1
-                pc += 1
-
-            elif opcode == Op.NOT_SPACE:
-                if sp >= len(string) or string[sp].isspace():
-                    if not stack:
-                        return None
-                    pc, sp, captures, registers = self._backtrack(stack)
-                    continue
-                sp += 1
-                pc += 1
-
-            elif opcode == Op.RANGE:
-                ranges = instr[1]
-                if sp >= len(string):
-                    if not stack:
-                        return None
-                    pc, sp, captures, registers = self._backtrack(stack)
-                    continue
-
-                ch = string[sp]
-                ch_code = ord(ch.lower() if self.ignorecase else ch)
-
-                matched = False
-                for start, end in ranges:
-                    if self.ignorecase:
-                        # Check both cases
-                        if start <= ch_code <= end:
-                            matched = True
-                            break
-                        ch_upper = ord(ch.upper())
-                        if start <= ch_upper <= end:
-                            matched = True
-                            break
-                    else:
-                        if start <= ch_code <= end:
-                            matched = True
-                            break
-
-                if matched:
+                if sp < length:
                     sp += 1
                     pc += 1
                 else:
-                    if not stack:
-                        return None
-                    pc, sp, captures, registers = self._backtrack(stack)
+                    failed = True
 
-            elif opcode == Op.RANGE_NEG:
-                ranges = instr[1]
-                if sp >= len(string):
-                    if not stack:
-                        return None
-                    pc, sp, captures, registers = self._backtrack(stack)
-                    continue
-
-                ch = string[sp]
-                ch_code = ord(ch.lower() if self.ignorecase else ch)
-
-                matched = False
-                for start, end in ranges:
-                    if start <= ch_code <= end:
-                        matched = True
-                        break
-
-                if not matched:
+            elif opcode in _CLASS_PREDICATES:
+                predicate, wanted = _CLASS_PREDICATES[opcode]
+                if sp < length and predicate(string[sp]) == wanted:
                     sp += 1
                     pc += 1
                 else:
-                    if not stack:
-                        return None
-                    pc, sp, captures, registers = self._backtrack(stack)
+                    failed = True
+
+            elif opcode == Op.RANGE or opcode == Op.RANGE_NEG:
+                if sp < length and self._in_ranges(string[sp], instr[1]) == (
+                    opcode == Op.RANGE
+                ):
+                    sp += 1
+                    pc += 1
+                else:
+                    failed = True
 
             elif opcode == Op.LINE_START:
-                if sp != 0:
-                    if not stack:
-                        return None
-                    pc, sp, captures, registers = self._backtrack(stack)
-                    continue
-                pc += 1
+                if sp == 0:
+                    pc += 1
+                else:
+                    failed = True
 
             elif opcode == Op.LINE_START_M:
-                if sp != 0 and (sp >= len(string) or string[sp - 1] != "\n"):
-                    if not stack:
-                        return None
-                    pc, sp, captures, registers = self._backtrack(stack)
-                    continue
-                pc += 1
+                if sp == 0 or _is_line_terminator(string[sp - 1]):
+                    pc += 1
+                else:
+                    failed = True
 
             elif opcode == Op.LINE_END:
-                if sp != len(string):
-                    if not stack:
-                        return None
-                    pc, sp, captures, registers = self._backtrack(stack)
-                    continue
-                pc += 1
+                if sp == length:
+                    pc += 1
+                else:
+                    failed = True
 
             elif opcode == Op.LINE_END_M:
-                if sp != len(string) and string[sp] != "\n":
-                    if not stack:
-                        return None
-                    pc, sp, captures, registers = self._backtrack(stack)
-                    continue
-                pc += 1
+                if sp == length or _is_line_terminator(string[sp]):
+                    pc += 1
+                else:
+                    failed = True
 
             elif opcode == Op.WORD_BOUNDARY:
-                at_boundary = self._is_word_boundary(string, sp)
-                if not at_boundary:
-                    if not stack:
-                        return None
-                    pc, sp, captures, registers = self._backtrack(stack)
-                    continue
-                pc += 1
+                if self._is_word_boundary(string, sp):
+                    pc += 1
+                else:
+                    failed = True
 
             elif opcode == Op.NOT_WORD_BOUNDARY:
-                at_boundary = self._is_word_boundary(string, sp)
-                if at_boundary:
-                    if not stack:
-                        return None
-                    pc, sp, captures, registers = self._backtrack(stack)
-                    continue
-                pc += 1
+                if not self._is_word_boundary(string, sp):
+                    pc += 1
+                else:
+                    failed = True
 
             elif opcode == Op.JUMP:
                 pc = instr[1]
 
             elif opcode == Op.SPLIT_FIRST:
                 # Try current path first, backup alternative
-                alt_pc = instr[1]
-                # Save state for backtracking
                 stack.append(
-                    (alt_pc, sp, [c.copy() for c in captures], registers.copy())
+                    (instr[1], sp, [c.copy() for c in captures], registers.copy())
                 )
                 pc += 1
 
             elif opcode == Op.SPLIT_NEXT:
                 # Try alternative first, backup current
-                alt_pc = instr[1]
-                # Save state for backtracking to continue after this
                 stack.append(
                     (pc + 1, sp, [c.copy() for c in captures], registers.copy())
                 )
-                pc = alt_pc
+                pc = instr[1]
 
             elif opcode == Op.SAVE_START:
                 group_idx = instr[1]
@@ -415,155 +320,72 @@ class RegexVM:
                 pc += 1
 
             elif opcode == Op.SAVE_RESET:
-                start_idx = instr[1]
-                end_idx = instr[2]
-                for i in range(start_idx, end_idx + 1):
+                for i in range(instr[1], instr[2] + 1):
                     if i < len(captures):
                         captures[i] = [-1, -1]
                 pc += 1
 
-            elif opcode == Op.BACKREF:
+            elif opcode == Op.BACKREF or opcode == Op.BACKREF_I:
                 group_idx = instr[1]
                 if group_idx >= len(captures):
-                    if not stack:
-                        return None
-                    pc, sp, captures, registers = self._backtrack(stack)
-                    continue
-
-                start, end = captures[group_idx]
-                if start == -1 or end == -1:
-                    # Unset capture - matches empty
-                    pc += 1
-                    continue
-
-                captured = string[start:end]
-                if sp + len(captured) > len(string):
-                    if not stack:
-                        return None
-                    pc, sp, captures, registers = self._backtrack(stack)
-                    continue
-
-                if string[sp : sp + len(captured)] == captured:
-                    sp += len(captured)
-                    pc += 1
+                    failed = True
                 else:
-                    if not stack:
-                        return None
-                    pc, sp, captures, registers = self._backtrack(stack)
+                    start, end = captures[group_idx]
+                    if start == -1 or end == -1:
+                        # Unset capture - matches empty
+                        pc += 1
+                    else:
+                        n = end - start
+                        if sp + n <= length and all(
+                            self._same_char(string[start + i], string[sp + i])
+                            for i in range(n)
+                        ):
+                            sp += n
+                            pc += 1
+                        else:
+                            failed = True
 
-            elif opcode == Op.BACKREF_I:
-                group_idx = instr[1]
-                if group_idx >= len(captures):
-                    if not stack:
-                        return None
-                    pc, sp, captures, registers = self._backtrack(stack)
-                    continue
-
-                start, end = captures[group_idx]
-                if start == -1 or end == -1:
-                    pc += 1
-                    continue
-
-                captured = string[start:end]
-                if sp + len(captured) > len(string):
-                    if not stack:
-                        return None
-                    pc, sp, captures, registers = self._backtrack(stack)
-                    continue
-
-                if string[sp : sp + len(captured)].lower() == captured.lower():
-                    sp += len(captured)
-                    pc += 1
-                else:
-                    if not stack:
-                        return None
-                    pc, sp, captures, registers = self._backtrack(stack)
-
-            elif opcode == Op.LOOKAHEAD:
-                end_offset = instr[1]
-                # Save current state and try to match lookahead
-                saved_sp = sp
-                saved_captures = [c.copy() for c in captures]
-
-                # Create sub-execution for lookahead, passing current captures
-                la_captures = self._execute_lookahead(
-                    string, sp, pc + 1, end_offset, captures
+            elif opcode == Op.LOOKAHEAD or opcode == Op.LOOKAHEAD_NEG:
+                inner = self._run(
+                    string, pc + 1, sp, [c.copy() for c in captures], "ahead", -1
                 )
-
-                if la_captures is not None:
-                    # Lookahead succeeded - restore position but keep captures from lookahead
-                    sp = saved_sp
-                    captures = la_captures  # Use captures from lookahead
-                    pc = end_offset
+                if opcode == Op.LOOKAHEAD and inner is not None:
+                    captures = inner  # Keep captures made inside the lookahead
+                    pc = instr[1]
+                elif opcode == Op.LOOKAHEAD_NEG and inner is None:
+                    pc = instr[1]
                 else:
-                    # Lookahead failed
-                    if not stack:
-                        return None
-                    pc, sp, captures, registers = self._backtrack(stack)
+                    failed = True
 
-            elif opcode == Op.LOOKAHEAD_NEG:
-                end_offset = instr[1]
-                saved_sp = sp
-                saved_captures = [c.copy() for c in captures]
-
-                la_captures = self._execute_lookahead(
-                    string, sp, pc + 1, end_offset, captures
-                )
-
-                if la_captures is None:
-                    # Negative lookahead succeeded (inner didn't match)
-                    sp = saved_sp
-                    captures = saved_captures  # Keep original captures
-                    pc = end_offset
+            elif opcode == Op.LOOKBEHIND or opcode == Op.LOOKBEHIND_NEG:
+                # The body has to match some text that ends at the current position
+                inner = None
+                for start_pos in range(sp, -1, -1):
+                    inner = self._run(
+                        string,
+                        pc + 1,
+                        start_pos,
+                        [c.copy() for c in captures],
+                        "behind",
+                        sp,
+                    )
+                    if inner is not None:
+                        break
+                if opcode == Op.LOOKBEHIND and inner is not None:
+                    captures = inner  # Keep captures made inside the lookbehind
+                    pc = instr[1]
+                elif opcode == Op.LOOKBEHIND_NEG and inner is None:
+                    pc = instr[1]
                 else:
-                    # Negative lookahead failed (inner matched)
-                    if not stack:
-                        return None
-                    pc, sp, captures, registers = self._backtrack(stack)
+                    failed = True
 
             elif opcode == Op.LOOKAHEAD_END:
-                # Successfully matched lookahead content
-                return MatchResult([], 0, "")  # Special marker
-
-            elif opcode == Op.LOOKBEHIND:
-                end_offset = instr[1]
-                saved_sp = sp
-                saved_captures = [c.copy() for c in captures]
-
-                # Try lookbehind - match pattern ending at current position
-                lb_result = self._execute_lookbehind(string, sp, pc + 1, end_offset)
-
-                if lb_result:
-                    # Lookbehind succeeded - restore position and continue after
-                    sp = saved_sp
-                    captures = saved_captures
-                    pc = end_offset
-                else:
-                    # Lookbehind failed
-                    if not stack:
-                        return None
-                    pc, sp, captures, registers = self._backtrack(stack)
-
-            elif opcode == Op.LOOKBEHIND_NEG:
-                end_offset = instr[1]
-                saved_sp = sp
-                saved_captures = [c.copy() for c in captures]
-
-                lb_result = self._execute_lookbehind(string, sp, pc + 1, end_offset)
-
-                if not lb_result:
-                    # Negative lookbehind succeeded (inner didn't match)
-                    sp = saved_sp
-                    captures = saved_captures
-                    pc = end_offset
-                else:
-                    # Negative lookbehind failed (inner matched)
-                    if not stack:
-                        return None
-                    pc, sp, captures, registers = self._backtrack(stack)
+                return captures
 
             elif opcode == Op.LOOKBEHIND_END:
-                return MatchResult([], 0, "")  # Special marker
+                if sp == must_end_at:
+                    return captures
+                failed = True
 
             elif opcode == Op.SET_POS:
                 reg_idx = instr[1]
@@ -576,26 +398,24 @@ class RegexVM:
                 reg_idx = instr[1]
                 if reg_idx < len(registers) and registers[reg_idx] == sp:
                     # Position didn't advance - fail to prevent infinite loop
-                    if not stack:
-                        return None
-                    pc, sp, captures, registers = self._backtrack(stack)
-                    continue
-                pc += 1
+                    failed = True
+                else:
+                    pc += 1
 
             elif opcode == Op.RESET_IF_NO_ADV:
                 reg_idx = instr[1]
-                start_group = instr[2]
-                end_group = instr[3]
                 # Reset captures if position didn't advance (zero-width match)
                 # This implements ECMAScript semantics where optional groups
                 # that match zero-width should have undefined captures
                 if reg_idx < len(registers) and registers[reg_idx] == sp:
-                    for i in range(start_group, end_group + 1):
+                    for i in range(instr[2], instr[3] + 1):
                         if i < len(captures):
                             captures[i] = [-1, -1]
                 pc += 1
 
             elif opcode == Op.MATCH:
+                if lookaround is not None:
+                    return captures
                 # Successful match!
                 groups = []
                 for start, end in captures:
@@ -608,247 +428,46 @@ class RegexVM:
             else:
                 raise RuntimeError(f"Unknown opcode: {opcode}")
 
-    def _backtrack(self, stack: List[Tuple]) -> Tuple:
-        """Pop and return state from backtrack stack."""
-        return stack.pop()
+            if failed:
+                if not stack:
+                    return None
+                pc, sp, captures, registers = stack.pop()
+
+    def _char_matches(self, ch: str, char_code: int) -> bool:
+        """Does input character ch match the pattern character char_code?"""
+        if self.ignorecase:
+            return ord(ch.lower()) == char_code or ord(ch.upper()) == char_code
+        return ord(ch) == char_code
+
+    def _same_char(self, a: str, b: str) -> bool:
+        """Character equality as used by backreferences."""
+        if self.ignorecase:
+            return a.lower() == b.lower()
+        return a == b
+
+    def _in_ranges(self, ch: str, ranges: List[Tuple[int, int]]) -> bool:
+        """Is ch a member of the character class given by (start, end) code point ranges?"""
+        codes = [ord(ch)]
+        if self.ignorecase:
+            codes = [ord(ch.lower()), ord(ch.upper())]
+        for code in codes:
+            for start, end in ranges:
+                if start <= code <= end:
+                    return True
+        return False
 
     def _is_word_boundary(self, string: str, pos: int) -> bool:
         """Check if position is at a word boundary."""
-
-        def is_word_char(ch: str) -> bool:
-            return ch.isalnum() or ch == "_"
-
-        before = pos > 0 and is_word_char(string[pos - 1])
-        after = pos < len(string) and is_word_char(string[pos])
+        before = pos > 0 and _is_word_char(string[pos - 1])
+        after = pos < len(string) and _is_word_char(string[pos])
         return before != after
 
-    def _execute_lookahead(
-        self,
-        string: str,
-        start_pos: int,
-        start_pc: int,
-        end_pc: int,
-        input_captures: List[List[int]],
-    ) -> Optional[List[List[int]]]:
-        """Execute bytecode for lookahead assertion.
 
-        Returns the captures list if lookahead succeeds, None if it fails.
-        This preserves captures made inside the lookahead.
-        """
-        # Start with a copy of input captures to preserve outer captures
-        pc = start_pc
-        sp = start_pos
-        captures = [c.copy() for c in input_captures]
-        registers: List[int] = []
-        stack: List[Tuple] = []
-        step_count = 0
-
-        while True:
-            step_count += 1
-            if step_count % self.poll_interval == 0:
-                if self.poll_callback and self.poll_callback():
-                    raise RegexTimeoutError("Regex execution timed out")
-
-            if len(stack) > self.stack_limit:
-                raise RegexStackOverflow("Regex stack overflow")
-
-            if pc >= end_pc:
-                return None
-
-            instr = self.bytecode[pc]
-            opcode = instr[0]
-
-            if opcode == Op.LOOKAHEAD_END:
-                return captures  # Return captures made inside lookahead
-
-            # Handle SAVE_START/SAVE_END to capture groups inside lookahead
-            if opcode == Op.SAVE_START:
-                group_idx = instr[1]
-                if group_idx < len(captures):
-                    captures[group_idx][0] = sp
-                pc += 1
-
-            elif opcode == Op.SAVE_END:
-                group_idx = instr[1]
-                if group_idx < len(captures):
-                    captures[group_idx][1] = sp
-                pc += 1
-
-            elif opcode == Op.CHAR:
-                char_code = instr[1]
-                if sp >= len(string):
-                    if not stack:
-                        return None
-                    pc, sp, captures, registers = stack.pop()
-                    continue
-                ch = string[sp]
-                if self.ignorecase:
-                    match = ord(ch.lower()) == char_code or ord(ch.upper()) == char_code
-                else:
-                    match = ord(ch) == char_code
-                if match:
-                    sp += 1
-                    pc += 1
-                else:
-                    if not stack:
-                        return None
-                    pc, sp, captures, registers = stack.pop()
-
-            elif opcode == Op.DOT:
-                if sp >= len(string) or string[sp] == "\n":
-                    if not stack:
-                        return None
-                    pc, sp, captures, registers = stack.pop()
-                    continue
-                sp += 1
-                pc += 1
-
-            elif opcode == Op.SPLIT_FIRST:
-                alt_pc = instr[1]
-                stack.append(
-                    (alt_pc, sp, [c.copy() for c in captures], registers.copy())
-                )
-                pc += 1
-
-            elif opcode == Op.SPLIT_NEXT:
-                alt_pc = instr[1]
-                stack.append(
-                    (pc + 1, sp, [c.copy() for c in captures], registers.copy())
-                )
-                pc = alt_pc
-
-            elif opcode == Op.JUMP:
-                pc = instr[1]
-
-            elif opcode == Op.MATCH:
-                return captures
-
-            else:
-                # Handle other opcodes similarly to main loop
-                pc += 1
-
-    def _execute_lookbehind(
-        self, string: str, end_pos: int, start_pc: int, end_pc: int
-    ) -> bool:
-        """Execute bytecode for lookbehind assertion.
-
-        Lookbehind matches if the pattern matches text ending at end_pos.
-        We try all possible start positions backwards from end_pos.
-        """
-        # Try all possible starting positions from 0 to end_pos
-        # We want the pattern to match and end exactly at end_pos
-        for start_pos in range(end_pos, -1, -1):
-            result = self._try_lookbehind_at(
-                string, start_pos, end_pos, start_pc, end_pc
-            )
-            if result:
-                return True
-        return False
-
-    def _try_lookbehind_at(
-        self, string: str, start_pos: int, end_pos: int, start_pc: int, end_pc: int
-    ) -> bool:
-        """Try to match lookbehind pattern from start_pos, checking it ends at end_pos."""
-        pc = start_pc
-        sp = start_pos
-        captures = [[-1, -1] for _ in range(self.capture_count)]
-        registers: List[int] = []
-        stack: List[Tuple] = []
-        step_count = 0
-
-        while True:
-            step_count += 1
-            if step_count % self.poll_interval == 0:
-                if self.poll_callback and self.poll_callback():
-                    raise RegexTimeoutError("Regex execution timed out")
-
-            if len(stack) > self.stack_limit:
-                raise RegexStackOverflow("Regex stack overflow")
-
-            if pc >= end_pc:
-                return False
-
-            instr = self.bytecode[pc]
-            opcode = instr[0]
-
-            if opcode == Op.LOOKBEHIND_END:
-                # Check if we ended exactly at the target position
-                return sp == end_pos
-
-            if opcode == Op.CHAR:
-                char_code = instr[1]
-                if sp >= len(string):
-                    if not stack:
-                        return False
-                    pc, sp, captures, registers = stack.pop()
-                    continue
-                ch = string[sp]
-                if self.ignorecase:
-                    match = ord(ch.lower()) == char_code or ord(ch.upper()) == char_code
-                else:
-                    match = ord(ch) == char_code
-                if match:
-                    sp += 1
-                    pc += 1
-                else:
-                    if not stack:
-                        return False
-                    pc, sp, captures, registers = stack.pop()
-
-            elif opcode == Op.DOT:
-                if sp >= len(string) or string[sp] == "\n":
-                    if not stack:
-                        return False
-                    pc, sp, captures, registers = stack.pop()
-                    continue
-                sp += 1
-                pc += 1
-
-            elif opcode == Op.DIGIT:
-                if sp >= len(string) or not string[sp].isdigit():
-                    if not stack:
-                        return False
-                    pc, sp, captures, registers = stack.pop()
-                    continue
-                sp += 1
-                pc += 1
-
-            elif opcode == Op.WORD:
-                if sp >= len(string):
-                    if not stack:
-                        return False
-                    pc, sp, captures, registers = stack.pop()
-                    continue
-                ch = string[sp]
-                if ch.isalnum() or ch == "_":
-                    sp += 1
-                    pc += 1
-                else:
-                    if not stack:
-                        return False
-                    pc, sp, captures, registers = stack.pop()
-
-            elif opcode == Op.SPLIT_FIRST:
-                alt_pc = instr[1]
-                stack.append(
-                    (alt_pc, sp, [c.copy() for c in captures], registers.copy())
-                )
-                pc += 1
-
-            elif opcode == Op.SPLIT_NEXT:
-                alt_pc = instr[1]
-                stack.append(
-                    (pc + 1, sp, [c.copy() for c in captures], registers.copy())
-                )
-                pc = alt_pc
-
-            elif opcode == Op.JUMP:
-                pc = instr[1]
-
-            elif opcode == Op.MATCH:
-                # Check if we ended exactly at the target position
-                return sp == end_pos
-
-            else:
-                # Handle other opcodes - advance pc
-                pc += 1
+_CLASS_PREDICATES = {
+    Op.DIGIT: (_is_digit, True),
+    Op.NOT_DIGIT: (_is_digit, False),
+    Op.WORD: (_is_word_char, True),
+    Op.NOT_WORD: (_is_word_char, False),
+    Op.SPACE: (_is_space, True),
+    Op.NOT_SPACE: (_is_space, False),
+}
